@@ -256,8 +256,14 @@ def rule_d5(chk: Check, ci: ClassInfo) -> None:
                     exp_keys[k.value] = rd[0] if rd else "?"
     req = []
     for st in walk(im.node):
-        if isinstance(st, ast.Assign) and isinstance(st.value, ast.List) and "required" in (dotted(st.targets[0]) or ""):
+        if isinstance(st, ast.Assign) and isinstance(st.value, (ast.List, ast.Tuple)) and "required" in (dotted(st.targets[0]) or "").lower():
             req = [e.value for e in st.value.elts if isinstance(e, ast.Constant)]
+    if not req:
+        # a module-level constant iterated in the import loop
+        for l in [x for x in walk(im.node) if isinstance(x, ast.For) and isinstance(x.iter, ast.Name)]:
+            cv = im.module.constants.get(l.iter.id)
+            if isinstance(cv, (ast.List, ast.Tuple, ast.Set)) and any(isinstance(t, ast.Compare) and isinstance(t.ops[0], ast.NotIn) and dotted(t.left) == dotted(l.target) for t in walk(l)):
+                req = [e.value for e in cv.elts if isinstance(e, ast.Constant)]
     ins = [(c, p) for c, p in statements(im) if p["verb"] == "INSERT"]
     ok = True
     essential = {"hostname", "port", "fingerprint", "first_seen"}
